@@ -299,6 +299,13 @@ func (s *Session) staticCall(fr *Frame, fn *ssa.Function, bindings []Val, args [
 		}
 		return s.pureCall(fn, args, st)
 	}
+	if hasPrefixAny(pkg, purePkgs) && writesThroughArgs(fn.Name()) && name != "encoding/json.Unmarshal" && name != "(*encoding/json.Decoder).Decode" {
+		// library functions of the "side-effect free" packages that nevertheless write through an argument
+		// (proto.Unmarshal / Merge, binary.Read / PutUint64, fmt.Sscan...): everything reachable is forgotten
+		s.note("%s writes through its arguments: heap havocked", name)
+		s.havocAll(st)
+		return s.freshResult(st, res, fn.Name())
+	}
 	if name == "encoding/json.Unmarshal" || name == "(*encoding/json.Decoder).Decode" {
 		// decoding writes into the object its last argument points to: that object gets arbitrary content (the
 		// package is otherwise treated as side-effect free, which is wrong for exactly these two functions)
@@ -1896,4 +1903,15 @@ func (s *Session) resolveMapType(pkg *types.Package, name string) (*types.Map, b
 		}
 	}
 	return nil, false
+}
+
+
+// writesThroughArgs: names of library functions in the purePkgs packages that store into an object or slice handed to them.
+func writesThroughArgs(n string) bool {
+	switch n {
+	case "Unmarshal", "UnmarshalMerge", "UnmarshalText", "Merge", "Decode", "Read", "ReadFull", "Sscan", "Sscanf", "Sscanln",
+		"Fscan", "Fscanf", "Fscanln", "PutUint16", "PutUint32", "PutUint64", "PutUvarint", "PutVarint", "DecodeString", "Copy":
+		return true
+	}
+	return false
 }
